@@ -54,7 +54,7 @@ Definition count (f : evkind -> bool) (l : list event) : Z := Z.of_nat (length (
 Definition is_started (k : evkind) : bool := match k with EStarted => true | _ => false end.
 Definition is_terminal (k : evkind) : bool := match k with ECanceled | ECompleted => true | _ => false end.
 
-Definition judge_entry (before o : out) (x : Z * Z * Z) (st : option Z) : Z * option Z :=
+Definition judge_entry (rejoin : Z -> Z -> bool) (before o : out) (x : Z * Z * Z) (st : option Z) : Z * option Z :=
   let '(c, e, a) := x in
   let evs := events_for e a (x_pre o ++ x_main o ++ x_post o) in
   let after := present c e o in
@@ -71,7 +71,12 @@ Definition judge_entry (before o : out) (x : Z * Z * Z) (st : option Z) : Z * op
       else match evs with [] => (0, None) | _ => (1, st) end
   | Some open =>
       let open' := open + count is_started evs - count is_terminal evs in
-      if negb (Z.eqb open' 0 || Z.eqb open' 1) then (2, st)
+      (* an entity that some reaction can re-insert may leave and re-join within one step (each leave closes the
+         episode of the instance it then holds): the per-step count says nothing there; its episodes are still
+         compared event by event with the model's run *)
+      if rejoin c e then (0, if after then Some (match snap_of_entry c e a (x_snaps o) with
+                                                  | Some s => if state_eqb (sn_state s) SNone then 0 else 1 | None => 0 end) else None)
+      else if negb (Z.eqb open' 0 || Z.eqb open' 1) then (2, st)
       else if (negb after || rebuilt) && negb (Z.eqb open' 0) then (4, st)
       (* an entity can leave and re-join (a despawned slot re-spawned by another reaction) within one step: the
          episode it continues with is the one of the instance it holds at the end of the step *)
@@ -80,14 +85,14 @@ Definition judge_entry (before o : out) (x : Z * Z * Z) (st : option Z) : Z * op
                else None)
   end.
 
-Fixpoint judge_steps (ents : list (Z * Z * Z)) (sts : list (option Z)) (before : out) (steps : list step) (outs : list out) : Z :=
+Fixpoint judge_steps (rejoin : Z -> Z -> bool) (ents : list (Z * Z * Z)) (sts : list (option Z)) (before : out) (steps : list step) (outs : list out) : Z :=
   match steps, outs with
   | st :: steps', o :: outs' =>
       if x_panicked o then 8 else
-      let rs := map (fun xs => judge_entry before o (fst xs) (snd xs)) (combine ents sts) in
+      let rs := map (fun xs => judge_entry rejoin before o (fst xs) (snd xs)) (combine ents sts) in
       match find (fun r => negb (Z.eqb (fst r) 0)) rs with
       | Some r => fst r
-      | None => judge_steps ents (map snd rs) o steps' outs'
+      | None => judge_steps rejoin ents (map snd rs) o steps' outs'
       end
   | [], [] => 0
   | _, _ => 9
@@ -96,7 +101,11 @@ Definition ok (p : rcase * trace_t) : Z :=
   match p with
   | (reacting rs sc, trace outs) =>
       let ents := all_entries sc in
-      judge_steps ents (map (fun _ => None) ents) (mkOut [] [] [] [] [] [] [] true true false) (s_steps sc) outs
+      let rejoin (c e : Z) := existsb (fun r => match r_op r with
+                                                | OInsert e' c' => Z.eqb e e' && Z.eqb c c'
+                                                | OSpawn e' cs => Z.eqb e e' && memz c cs
+                                                | _ => false end) rs in
+      judge_steps rejoin ents (map (fun _ => None) ents) (mkOut [] [] [] [] [] [] [] true true false) (s_steps sc) outs
   | (_, panic) => 10
   end.
 Definition bad_agree := bad agree.
